@@ -1133,6 +1133,7 @@ void DOMLSSerializerImpl::processNode(const DOMNode* const nodeToWrite, int leve
             {
                 // it is fairly complicated and we process this
                 // in a separate function.
+                ensureValidString(nodeToWrite, nodeValue);
                 procCdataSection(nodeValue, nodeToWrite);
             }
             else
@@ -1564,8 +1565,15 @@ void DOMLSSerializerImpl::procUnrepCharInCdataSection(const XMLCh*   const nodeV
 
             while (srcPtr < endPtr)
             {
-                // Build a char ref for the current char
-                XMLString::binToText(*srcPtr, &tmpBuf[3], 8, 16, fMemoryManager);
+                // Build a char ref for the current char; a surrogate pair
+                // denotes one character and gets one reference
+                unsigned int refVal = *srcPtr;
+                if ((*srcPtr & 0xFC00) == 0xD800 && (srcPtr + 1) < endPtr)
+                {
+                    refVal = 0x10000 + ((*srcPtr - 0xD800) << 10) + (*(srcPtr + 1) - 0xDC00);
+                    srcPtr++;
+                }
+                XMLString::binToText(refVal, &tmpBuf[3], 8, 16, fMemoryManager);
                 const XMLSize_t bufLen = XMLString::stringLen(tmpBuf);
                 tmpBuf[bufLen] = chSemiColon;
                 tmpBuf[bufLen+1] = chNull;
